@@ -169,7 +169,8 @@ Proof.
     intros o w1 Hw1. apply schedule_after_ok. exact Hw1.
   - cbn [bu_make_consistent]. destruct (memN t (consistent w)).
     + destruct (get_task_output w t); [exact Hw|right; exact Hw].
-    + destruct (get_task_output w t); [|apply execute_with_ok; assumption].
+    + destruct ((match get_task_output w t with None => true | Some _ => false end) && negb (memN t (queue w)))%bool;
+        [apply execute_with_ok; assumption|].
       apply bind_ok; [apply IH3; exact Hw|]. intros r w1 Hw1. destruct r; [exact Hw1|].
       destruct (get_task_output w1 t); [exact Hw1|right; exact Hw1].
   - cbn [bu_require_scheduled_now]. destruct (queue w); [exact Hw|].
